@@ -154,6 +154,9 @@ def decide(pid, tier, seed):
             if canary.status == 'undecided' and not canary.errors:
                 undecided.append('%s: canary run undecided: %s' % (uname, canary.reason))
             else:
+                for t in getattr(canary, 'canary_tmpl_items', []):
+                    if t and matches(t, patterns) and t not in hit:
+                        undecided.append('%s: VACUITY: template function %s verifies even with assert(false) at its end' % (uname, t))
                 for it in mine:
                     if it['name'] not in hit:
                         undecided.append('%s: VACUITY: %s verifies even with assert(false) at its end (contradictory precondition or assumption leak)' % (uname, it['name']))
